@@ -1,8 +1,1397 @@
-(* Lemmas about Model/Geom.v over the exact-rational instance (C08). *)
-From Coq Require Import List Bool ZArith QArith Qabs Lia Lra.
+(* Lemmas about Model/Geom.v over the exact-rational instance Qops (C08).
+   Part 1: arithmetic normal forms, similarity maps (translation / rotation) commute with the clipper,
+           the clipped region never leaves either polygon, self-clipping, rectangle area. *)
+From Coq Require Import List Bool ZArith QArith Qfield Qabs Lia Lra Psatz Setoid Morphisms.
 From Similari Require Import Base.Num Model.Geom.
 Import ListNotations.
 Open Scope Q_scope.
 
-Lemma sh_clip_nil_clip : forall subj : list qpt, sh_clip Qops subj [] = subj.
-Proof. reflexivity. Qed.
+(* ring / field also when the carrier is written [T Qops] (the type of px, py, shoelace ... at Qops) *)
+Definition Qsft_T : @field_theory (T Qops) 0 1 Qplus Qmult Qminus Qopp Qdiv Qinv Qeq := Qsft.
+Add Field QopsField : Qsft_T
+ (decidable Qeq_bool_eq, completeness Qeq_eq_bool, constants [Qcst], power_tac Qpower_theory [Qpow_tac]).
+
+(* ------------------------------------------------------------------------------------------ *)
+(* Qops in terms of the Stdlib operations (results are normalised by Qred, hence == and not =) *)
+
+Lemma qadd a b : add Qops a b == a + b. Proof. apply Qred_correct. Qed.
+Lemma qsub a b : sub Qops a b == a - b. Proof. apply Qred_correct. Qed.
+Lemma qmul a b : mul Qops a b == a * b. Proof. apply Qred_correct. Qed.
+Lemma qdiv a b : div Qops a b == a / b. Proof. apply Qred_correct. Qed.
+Lemma qopp a : opp Qops a = - a. Proof. reflexivity. Qed.
+Lemma qzero : zero Qops = 0. Proof. reflexivity. Qed.
+Lemma qone : one Qops = 1. Proof. reflexivity. Qed.
+Lemma qleb a b : leb Qops a b = Qle_bool a b. Proof. reflexivity. Qed.
+Lemma qltb a b : ltb Qops a b = negb (Qle_bool b a). Proof. reflexivity. Qed.
+Lemma qtwo : two Qops == 2. Proof. unfold two. rewrite qadd. reflexivity. Qed.
+
+Lemma Qabsb_abs a : abs Qops a == Qabs a.
+Proof.
+  cbn [abs Qops]. unfold Qabsb. destruct (Qle_bool 0 a) eqn:E.
+  - apply Qle_bool_iff in E. now rewrite Qabs_pos.
+  - assert (a < 0). { apply Qnot_le_lt. intro H. apply Qle_bool_iff in H. congruence. }
+    rewrite Qabs_neg; [reflexivity | now apply Qlt_le_weak].
+Qed.
+
+Lemma Qmaxb_spec a b : (a <= b /\ max Qops a b = b) \/ (b < a /\ max Qops a b = a).
+Proof.
+  cbn [max Qops]. unfold Qmaxb. destruct (Qle_bool a b) eqn:E.
+  - left. split; [now apply Qle_bool_iff | reflexivity].
+  - right. split; [|reflexivity]. apply Qnot_le_lt. intro H. apply Qle_bool_iff in H. congruence.
+Qed.
+
+Lemma Qminb_spec a b : (a <= b /\ min Qops a b = a) \/ (b < a /\ min Qops a b = b).
+Proof.
+  cbn [min Qops]. unfold Qminb. destruct (Qle_bool a b) eqn:E.
+  - left. split; [now apply Qle_bool_iff | reflexivity].
+  - right. split; [|reflexivity]. apply Qnot_le_lt. intro H. apply Qle_bool_iff in H. congruence.
+Qed.
+
+Lemma Qle_bool_false a b : Qle_bool a b = false <-> b < a.
+Proof.
+  split; intro H.
+  - apply Qnot_le_lt. intro L. apply Qle_bool_iff in L. congruence.
+  - destruct (Qle_bool a b) eqn:E; [|reflexivity]. apply Qle_bool_iff in E. exfalso. now apply (Qlt_not_le _ _ H).
+Qed.
+
+Lemma qltb_iff a b : ltb Qops a b = true <-> a < b.
+Proof. rewrite qltb, negb_true_iff. apply Qle_bool_false. Qed.
+
+Lemma qleb_iff a b : leb Qops a b = true <-> a <= b.
+Proof. rewrite qleb. apply Qle_bool_iff. Qed.
+
+Lemma eqb_iff a b : eqb Qops a b = true <-> a == b.
+Proof.
+  unfold eqb. rewrite andb_true_iff, !qleb_iff. split.
+  - intros [H1 H2]. now apply Qle_antisym.
+  - intros H. rewrite H. split; apply Qle_refl.
+Qed.
+
+(* normal form of the primitive geometric functions *)
+Ltac qn := cbn [T add sub mul div opp zero one Qops]; rewrite ?Qred_correct.
+
+Definition crossq (p1 p2 q : qpt) : Q :=
+  (px p2 - px p1) * (py q - py p1) - (py p2 - py p1) * (px q - px p1).
+
+Lemma cross_q p1 p2 q : cross Qops p1 p2 q == crossq p1 p2 q.
+Proof. unfold cross, crossq. qn. reflexivity. Qed.
+
+Lemma is_inside_iff q p1 p2 : is_inside Qops q p1 p2 = true <-> crossq p1 p2 q <= 0.
+Proof. unfold is_inside. rewrite qleb_iff, cross_q, qzero. reflexivity. Qed.
+
+Lemma is_inside_false q p1 p2 : is_inside Qops q p1 p2 = false <-> 0 < crossq p1 p2 q.
+Proof. unfold is_inside. rewrite qleb, cross_q, qzero. apply Qle_bool_false. Qed.
+
+(* equality of points / of vertex lists up to == *)
+Definition peq (p q : qpt) : Prop := px p == px q /\ py p == py q.
+Definition leq (l l' : list qpt) : Prop := Forall2 peq l l'.
+
+Lemma peq_refl p : peq p p. Proof. split; reflexivity. Qed.
+Lemma leq_refl l : leq l l. Proof. induction l; constructor; auto using peq_refl. Qed.
+
+(* ------------------------------------------------------------------------------------------ *)
+(* the crossing point in parametric form: the point s + t (e - s) of the subject segment with
+   t = r_s / (r_s - r_e), r = the very cross product that is_inside tests.  The denominator of the line-line
+   formula IS r_s - r_e: it cannot vanish when the two end points are classified differently. *)
+
+Definition ci_t (s e cs ce : qpt) : Q := crossq cs ce s / (crossq cs ce s - crossq cs ce e).
+
+(* the situation in which the clipper calls compute_intersection: the end points of the subject edge are
+   classified differently by is_inside *)
+Definition sides_differ (s e cs ce : qpt) : Prop :=
+  (crossq cs ce e <= 0 /\ 0 < crossq cs ce s) \/ (crossq cs ce s <= 0 /\ 0 < crossq cs ce e).
+
+Lemma sides_differ_den s e cs ce : sides_differ s e cs ce -> ~ crossq cs ce s - crossq cs ce e == 0.
+Proof. intros [[? ?]|[? ?]] Z; lra. Qed.
+
+Lemma ci_t_range s e cs ce : sides_differ s e cs ce -> 0 <= ci_t s e cs ce <= 1.
+Proof.
+  unfold ci_t, sides_differ. set (rs := crossq cs ce s). set (re := crossq cs ce e). intros [[H1 H2]|[H1 H2]].
+  - assert (D : 0 < rs - re) by lra. split.
+    + apply Qle_shift_div_l; [exact D | lra].
+    + apply Qle_shift_div_r; [exact D | lra].
+  - assert (D : 0 < re - rs) by lra.
+    assert (E : rs / (rs - re) == (- rs) / (re - rs)) by (field; split; lra).
+    rewrite E. split.
+    + apply Qle_shift_div_l; [exact D | lra].
+    + apply Qle_shift_div_r; [exact D | lra].
+Qed.
+
+Lemma clamp01_id t t' : t == t' -> 0 <= t' <= 1 -> clamp01 Qops t == t'.
+Proof.
+  intros E [H0 H1]. unfold clamp01.
+  destruct (ltb Qops t (zero Qops)) eqn:A.
+  - apply qltb_iff in A. rewrite qzero, E in A. lra.
+  - destruct (ltb Qops (one Qops) t) eqn:B; [|exact E].
+    apply qltb_iff in B. rewrite qone, E in B. lra.
+Qed.
+
+Lemma compute_intersection_parametric s e cs ce :
+  sides_differ s e cs ce ->
+  peq (compute_intersection Qops s e cs ce)
+      (px s + ci_t s e cs ce * (px e - px s), py s + ci_t s e cs ce * (py e - py s)).
+Proof.
+  intros Hd. unfold compute_intersection.
+  assert (ET : clamp01 Qops (div Qops (cross Qops cs ce s) (sub Qops (cross Qops cs ce s) (cross Qops cs ce e)))
+               == ci_t s e cs ce).
+  { apply clamp01_id; [|now apply ci_t_range]. rewrite qdiv, qsub, !cross_q. reflexivity. }
+  set (tt := clamp01 Qops _) in *.
+  unfold peq. cbn [px py fst snd]. qn. rewrite ET. split; reflexivity.
+Qed.
+
+(* the line-line formula used before commit 04617aa gives the same point in exact arithmetic *)
+Definition ci_den (s e cs ce : qpt) : Q :=
+  (px s - px e) * (py cs - py ce) - (py s - py e) * (px cs - px ce).
+
+Lemma ci_den_cross s e cs ce : ci_den s e cs ce == crossq cs ce s - crossq cs ce e.
+Proof. unfold ci_den, crossq. ring. Qed.
+
+Lemma compute_intersection_lines_parametric s e cs ce :
+  ~ crossq cs ce s - crossq cs ce e == 0 ->
+  peq (compute_intersection_lines Qops s e cs ce)
+      (px s + ci_t s e cs ce * (px e - px s), py s + ci_t s e cs ce * (py e - py s)).
+Proof.
+  intros Hd.
+  assert (Hd' : ~ ci_den s e cs ce == 0) by (now rewrite ci_den_cross).
+  unfold compute_intersection_lines, peq, ci_t. cbn [px py fst snd]. qn.
+  unfold ci_den, crossq in *. split; field; auto.
+Qed.
+
+Lemma compute_intersection_lines_eq s e cs ce :
+  sides_differ s e cs ce ->
+  peq (compute_intersection_lines Qops s e cs ce) (compute_intersection Qops s e cs ce).
+Proof.
+  intros Hd.
+  destruct (compute_intersection_lines_parametric _ _ _ _ (sides_differ_den _ _ _ _ Hd)) as [A B].
+  destruct (compute_intersection_parametric _ _ _ _ Hd) as [C D].
+  split; [rewrite A, C | rewrite B, D]; reflexivity.
+Qed.
+
+(* ------------------------------------------------------------------------------------------ *)
+(* Similarity maps  p |-> (a x - b y + dx, b x + a y + dy), a^2 + b^2 > 0, as a relation on points so that
+   == on coordinates is absorbed: a = 1, b = 0 is a translation, a = cos, b = sin a rotation,
+   a = 1, b = dx = dy = 0 is plain == (the clipper respects ==). *)
+Section Similarity.
+Variables a b dx dy : Q.
+Let k := a * a + b * b.
+Hypothesis kpos : 0 < k.
+
+Definition simR (p p' : qpt) : Prop :=
+  px p' == a * px p - b * py p + dx /\ py p' == b * px p + a * py p + dy.
+
+Lemma cross_sim p1 p2 q p1' p2' q' :
+  simR p1 p1' -> simR p2 p2' -> simR q q' -> crossq p1' p2' q' == k * crossq p1 p2 q.
+Proof.
+  intros [H1 H2] [H3 H4] [H5 H6]. unfold crossq, k. rewrite H1, H2, H3, H4, H5, H6. ring.
+Qed.
+
+Lemma is_inside_sim p1 p2 q p1' p2' q' :
+  simR p1 p1' -> simR p2 p2' -> simR q q' -> is_inside Qops q' p1' p2' = is_inside Qops q p1 p2.
+Proof.
+  intros H1 H2 H3. pose proof (cross_sim _ _ _ _ _ _ H1 H2 H3) as E.
+  destruct (is_inside Qops q p1 p2) eqn:I.
+  - apply is_inside_iff in I. apply is_inside_iff. rewrite E.
+    setoid_replace 0 with (k * 0) by ring. apply Qmult_le_l; assumption.
+  - apply is_inside_false in I. apply is_inside_false. rewrite E. apply Qmult_lt_0_compat; assumption.
+Qed.
+
+Lemma sides_differ_sim s e cs ce s' e' cs' ce' :
+  simR s s' -> simR e e' -> simR cs cs' -> simR ce ce' ->
+  sides_differ s e cs ce -> sides_differ s' e' cs' ce'.
+Proof.
+  intros Hs He Hcs Hce Hd.
+  pose proof (cross_sim _ _ _ _ _ _ Hcs Hce Hs) as Es.
+  pose proof (cross_sim _ _ _ _ _ _ Hcs Hce He) as Ee.
+  unfold sides_differ in *. rewrite Es, Ee.
+  set (rs := crossq cs ce s) in *. set (re := crossq cs ce e) in *.
+  destruct Hd as [[H1 H2]|[H1 H2]]; [left | right]; split; nra.
+Qed.
+
+Lemma ci_sim s e cs ce s' e' cs' ce' :
+  simR s s' -> simR e e' -> simR cs cs' -> simR ce ce' ->
+  sides_differ s e cs ce ->
+  simR (compute_intersection Qops s e cs ce) (compute_intersection Qops s' e' cs' ce').
+Proof.
+  intros Hs He Hcs Hce Hd.
+  pose proof (sides_differ_sim _ _ _ _ _ _ _ _ Hs He Hcs Hce Hd) as Hd'.
+  pose proof (cross_sim _ _ _ _ _ _ Hcs Hce Hs) as Es.
+  pose proof (cross_sim _ _ _ _ _ _ Hcs Hce He) as Ee.
+  assert (Hk : ~ k == 0) by (intro Z; rewrite Z in kpos; now apply (Qlt_irrefl 0)).
+  pose proof (sides_differ_den _ _ _ _ Hd) as Nd.
+  destruct (compute_intersection_parametric _ _ _ _ Hd) as [X Y].
+  destruct (compute_intersection_parametric _ _ _ _ Hd') as [X' Y'].
+  assert (Et : ci_t s' e' cs' ce' == ci_t s e cs ce).
+  { unfold ci_t. rewrite Es, Ee. field. split; [assumption|]. rewrite <- Es, <- Ee. now apply sides_differ_den. }
+  destruct Hs as [Hs1 Hs2], He as [He1 He2].
+  unfold simR. rewrite X, Y, X', Y'. cbn [px py fst snd]. rewrite Et, Hs1, Hs2, He1, He2. split; ring.
+Qed.
+
+Definition simL (l l' : list qpt) : Prop := Forall2 simR l l'.
+
+Lemma clip_step_sim cs ce s e cs' ce' s' e' :
+  simR cs cs' -> simR ce ce' -> simR s s' -> simR e e' ->
+  simL (clip_step Qops cs ce s e) (clip_step Qops cs' ce' s' e').
+Proof.
+  intros Hcs Hce Hs He. unfold clip_step.
+  rewrite (is_inside_sim _ _ _ _ _ _ Hcs Hce He), (is_inside_sim _ _ _ _ _ _ Hcs Hce Hs).
+  destruct (is_inside Qops e cs ce) eqn:Ie, (is_inside Qops s cs ce) eqn:Is; cbn [negb].
+  - constructor; [exact He | constructor].
+  - constructor; [| constructor; [exact He | constructor]].
+    apply ci_sim; try assumption.
+    apply is_inside_iff in Ie. apply is_inside_false in Is. left. split; assumption.
+  - constructor; [| constructor].
+    apply ci_sim; try assumption.
+    apply is_inside_iff in Is. apply is_inside_false in Ie. right. split; assumption.
+  - constructor.
+Qed.
+
+Lemma simL_app l1 l1' l2 l2' : simL l1 l1' -> simL l2 l2' -> simL (l1 ++ l2) (l1' ++ l2').
+Proof. intros H1 H2. induction H1; cbn; [assumption | constructor; assumption]. Qed.
+
+Lemma clip_walk_sim cs ce cs' ce' :
+  simR cs cs' -> simR ce ce' ->
+  forall l l', simL l l' -> forall prev prev', simR prev prev' ->
+  simL (clip_walk Qops cs ce prev l) (clip_walk Qops cs' ce' prev' l').
+Proof.
+  intros Hcs Hce l l' H. induction H as [|x x' l l' Hx Hl IH]; intros prev prev' Hp; cbn [clip_walk].
+  - constructor.
+  - apply simL_app; [now apply clip_step_sim | now apply IH].
+Qed.
+
+Lemma last_sim_ne l l' : simL l l' -> l <> [] -> forall d d', simR (last l d) (last l' d').
+Proof.
+  intros H Hne d d'. destruct H as [|x x' l l' Hx Hl]; [congruence|].
+  change (simR (last (x :: l) d) (last (x' :: l') d')).
+  assert (G : forall (m m' : list qpt), simL m m' -> forall y y', simR y y' ->
+              simR (last (y :: m) d) (last (y' :: m') d')).
+  { intros m m' Hm. induction Hm as [|z z' m m' Hz Hm IH]; intros y y' Hy; [exact Hy|].
+    exact (IH z z' Hz). }
+  now apply G.
+Qed.
+
+Lemma clip_pass_sim cs ce cs' ce' l l' :
+  simR cs cs' -> simR ce ce' -> simL l l' ->
+  simL (clip_pass Qops cs ce l) (clip_pass Qops cs' ce' l').
+Proof.
+  intros Hcs Hce Hl. unfold clip_pass. destruct Hl as [|x x' l l' Hx Hl]; [constructor|].
+  apply clip_walk_sim; try assumption; [constructor; assumption|].
+  apply last_sim_ne; [constructor; assumption | discriminate].
+Qed.
+
+Lemma clip_edges_sim : forall cl cl', simL cl cl' -> forall prev prev' l l',
+  simR prev prev' -> simL l l' ->
+  simL (clip_edges Qops prev cl l) (clip_edges Qops prev' cl' l').
+Proof.
+  intros cl cl' H. induction H as [|c c' cl cl' Hc Hcl IH]; intros prev prev' l l' Hp Hl; cbn [clip_edges].
+  - assumption.
+  - apply IH; [assumption|]. now apply clip_pass_sim.
+Qed.
+
+Lemma sh_clip_sim p p' q q' : simL p p' -> simL q q' -> simL (sh_clip Qops p q) (sh_clip Qops p' q').
+Proof.
+  intros Hp Hq. unfold sh_clip. destruct Hq as [|c c' q q' Hc Hq]; [assumption|].
+  apply clip_edges_sim; [constructor; assumption | | assumption].
+  apply last_sim_ne; [constructor; assumption | discriminate].
+Qed.
+
+Lemma last_cons {A} (l : list A) : forall x d, last (x :: l) d = last l x.
+Proof.
+  induction l as [|y l IH]; intros x d; [reflexivity|].
+  change (last (x :: y :: l) d) with (last (y :: l) d). rewrite !IH. reflexivity.
+Qed.
+
+(* area: the cyclic determinant sum scales by k; the translation terms telescope *)
+Definition detq (p q : qpt) : Q := px p * py q - py p * px q.
+Lemma det_q p q : det Qops p q == detq p q.
+Proof. unfold det, detq. qn. reflexivity. Qed.
+
+Let g (p : qpt) : Q := dx * (b * px p + a * py p) - dy * (a * px p - b * py p).
+
+Lemma det_sim p q p' q' : simR p p' -> simR q q' -> detq p' q' == k * detq p q + g q - g p.
+Proof. intros [H1 H2] [H3 H4]. unfold detq, g, k. rewrite H1, H2, H3, H4. ring. Qed.
+
+Lemma det_walk_sim l l' : simL l l' -> forall prev prev', simR prev prev' ->
+  det_walk Qops prev' l' == k * det_walk Qops prev l + g (last l prev) - g prev.
+Proof.
+  intros H. induction H as [|x x' l l' Hx Hl IH]; intros prev prev' Hp; cbn [det_walk].
+  - rewrite qzero. cbn [last]. ring.
+  - qn. rewrite !det_q, (det_sim _ _ _ _ Hp Hx), (IH _ _ Hx).
+    rewrite (last_cons l x prev). ring.
+Qed.
+
+Lemma twice_area_sim l l' : simL l l' -> twice_signed_area Qops l' == k * twice_signed_area Qops l.
+Proof.
+  intros H. unfold twice_signed_area. destruct H as [|x x' l l' Hx Hl]; [rewrite qzero; ring|].
+  assert (HL : simL (x :: l) (x' :: l')) by (constructor; assumption).
+  rewrite (det_walk_sim _ _ HL (last (x :: l) (zero Qops, zero Qops)) (last (x' :: l') (zero Qops, zero Qops))).
+  - assert (E : last (x :: l) (last (x :: l) (zero Qops, zero Qops)) = last (x :: l) (zero Qops, zero Qops))
+      by (rewrite !last_cons; reflexivity).
+    rewrite E. set (u := det_walk _ _ _). set (v := g _). ring.
+  - apply last_sim_ne; [assumption | discriminate].
+Qed.
+
+Lemma shoelace_sim l l' : simL l l' -> shoelace Qops l' == k * shoelace Qops l.
+Proof.
+  intros H. unfold shoelace. rewrite !qdiv, !Qabsb_abs, (twice_area_sim _ _ H), qtwo.
+  rewrite Qabs_Qmult, (Qabs_pos k) by (now apply Qlt_le_weak). field.
+Qed.
+
+End Similarity.
+
+(* == is the similarity a = 1, b = dx = dy = 0 *)
+Lemma peq_simR p q : peq p q <-> simR 1 0 0 0 p q.
+Proof.
+  unfold peq, simR. split; intros [H1 H2]; split.
+  - rewrite <- H1. ring. - rewrite <- H2. ring.
+  - rewrite H1. ring. - rewrite H2. ring.
+Qed.
+
+Lemma leq_simL l l' : leq l l' <-> simL 1 0 0 0 l l'.
+Proof.
+  unfold leq, simL. split; intro H; induction H; constructor; auto; now apply peq_simR.
+Qed.
+
+Lemma one_pos : 0 < 1 * 1 + 0 * 0. Proof. reflexivity. Qed.
+
+Lemma sh_clip_leq p p' q q' : leq p p' -> leq q q' -> leq (sh_clip Qops p q) (sh_clip Qops p' q').
+Proof. rewrite !leq_simL. apply sh_clip_sim. exact one_pos. Qed.
+
+Lemma shoelace_leq l l' : leq l l' -> shoelace Qops l' == shoelace Qops l.
+Proof. rewrite leq_simL. intro H. rewrite (shoelace_sim 1 0 0 0 one_pos _ _ H). ring. Qed.
+
+Lemma simL_leq_r a b dx dy l l' : simL a b dx dy l l' -> forall l'', leq l' l'' -> simL a b dx dy l l''.
+Proof.
+  intros H. induction H as [|x x' l l' Hx Hl IH]; intros l'' E; inversion E as [|y y' m m' Ey Em]; subst; constructor.
+  - destruct Hx as [H1 H2]. destruct Ey as [E1 E2].
+    split; [rewrite <- E1; exact H1 | rewrite <- E2; exact H2].
+  - now apply IH.
+Qed.
+
+(* ------------------------------------------------------------------------------------------ *)
+(* The clipped region never leaves either polygon. *)
+
+Lemma crossq_peq u w p p' : peq p p' -> crossq u w p == crossq u w p'.
+Proof. intros [H1 H2]. unfold crossq. rewrite H1, H2. reflexivity. Qed.
+
+(* cross is affine along a segment *)
+Lemma crossq_affine (u w s e : qpt) t :
+  crossq u w (px s + t * (px e - px s), py s + t * (py e - py s)) == (1 - t) * crossq u w s + t * crossq u w e.
+Proof. unfold crossq. cbn [px py fst snd]. ring. Qed.
+
+Lemma ci_on_line s e cs ce :
+  sides_differ s e cs ce ->
+  crossq cs ce (compute_intersection Qops s e cs ce) == 0.
+Proof.
+  intros Hd. rewrite (crossq_peq _ _ _ _ (compute_intersection_parametric _ _ _ _ Hd)).
+  rewrite crossq_affine. unfold ci_t. field. now apply sides_differ_den.
+Qed.
+
+Lemma ci_in_halfplane u w s e cs ce :
+  sides_differ s e cs ce ->
+  crossq u w s <= 0 -> crossq u w e <= 0 ->
+  crossq u w (compute_intersection Qops s e cs ce) <= 0.
+Proof.
+  intros Hc Hs He.
+  rewrite (crossq_peq _ _ _ _ (compute_intersection_parametric _ _ _ _ Hc)), crossq_affine.
+  destruct (ci_t_range _ _ _ _ Hc) as [T0 T1]. set (t := ci_t s e cs ce) in *.
+  set (a := crossq u w s) in *. set (b := crossq u w e) in *. nra.
+Qed.
+
+Definition all_in (u w : qpt) (l : list qpt) : Prop := Forall (fun v => crossq u w v <= 0) l.
+
+Lemma clip_step_cases cs ce s e :
+  let rs := crossq cs ce s in let re := crossq cs ce e in
+  (re <= 0 /\ rs <= 0 /\ clip_step Qops cs ce s e = [e]) \/
+  (re <= 0 /\ 0 < rs /\ clip_step Qops cs ce s e = [compute_intersection Qops s e cs ce; e]) \/
+  (0 < re /\ rs <= 0 /\ clip_step Qops cs ce s e = [compute_intersection Qops s e cs ce]) \/
+  (0 < re /\ 0 < rs /\ clip_step Qops cs ce s e = []).
+Proof.
+  cbn zeta. unfold clip_step.
+  destruct (is_inside Qops e cs ce) eqn:Ie, (is_inside Qops s cs ce) eqn:Is; cbn [negb];
+    rewrite ?is_inside_iff, ?is_inside_false in *; tauto.
+Qed.
+
+Lemma clip_step_inside cs ce s e : all_in cs ce (clip_step Qops cs ce s e).
+Proof.
+  destruct (clip_step_cases cs ce s e) as [(H1 & H2 & E)|[(H1 & H2 & E)|[(H1 & H2 & E)|(H1 & H2 & E)]]]; rewrite E.
+  - repeat constructor; assumption.
+  - constructor; [|repeat constructor; assumption]. rewrite ci_on_line; [apply Qle_refl | left; split; assumption].
+  - constructor; [|constructor]. rewrite ci_on_line; [apply Qle_refl | right; split; assumption].
+  - constructor.
+Qed.
+
+Lemma clip_step_halfplane u w cs ce s e :
+  crossq u w s <= 0 -> crossq u w e <= 0 -> all_in u w (clip_step Qops cs ce s e).
+Proof.
+  intros Hs He.
+  destruct (clip_step_cases cs ce s e) as [(H1 & H2 & E)|[(H1 & H2 & E)|[(H1 & H2 & E)|(H1 & H2 & E)]]]; rewrite E.
+  - repeat constructor; assumption.
+  - constructor; [|repeat constructor; assumption]. apply ci_in_halfplane; auto. left; split; assumption.
+  - constructor; [|constructor]. apply ci_in_halfplane; auto. right; split; assumption.
+  - constructor.
+Qed.
+
+Lemma all_in_app u w l1 l2 : all_in u w l1 -> all_in u w l2 -> all_in u w (l1 ++ l2).
+Proof. intros H1 H2. apply Forall_app. split; assumption. Qed.
+
+Lemma clip_walk_inside cs ce : forall l prev, all_in cs ce (clip_walk Qops cs ce prev l).
+Proof.
+  induction l as [|x l IH]; intros prev; cbn [clip_walk]; [constructor|].
+  apply all_in_app; [apply clip_step_inside | apply IH].
+Qed.
+
+Lemma clip_walk_halfplane u w cs ce : forall l prev,
+  crossq u w prev <= 0 -> all_in u w l -> all_in u w (clip_walk Qops cs ce prev l).
+Proof.
+  induction l as [|x l IH]; intros prev Hp Hl; cbn [clip_walk]; [constructor|].
+  inversion Hl as [|y m Hx Hm]; subst.
+  apply all_in_app; [now apply clip_step_halfplane | now apply IH].
+Qed.
+
+Lemma all_in_last u w l : all_in u w l -> l <> [] -> forall d, crossq u w (last l d) <= 0.
+Proof.
+  intros H Hne d. destruct l as [|x l]; [congruence|]. rewrite last_cons.
+  clear Hne. revert x H. induction l as [|y l IH]; intros x H.
+  - inversion H; assumption.
+  - rewrite last_cons. apply IH. inversion H; assumption.
+Qed.
+
+Lemma clip_pass_inside cs ce l : all_in cs ce (clip_pass Qops cs ce l).
+Proof. unfold clip_pass. destruct l; [constructor | apply clip_walk_inside]. Qed.
+
+Lemma clip_pass_halfplane u w cs ce l : all_in u w l -> all_in u w (clip_pass Qops cs ce l).
+Proof.
+  intros H. unfold clip_pass. destruct l as [|x l]; [constructor|].
+  apply clip_walk_halfplane; [apply all_in_last; [assumption | discriminate] | assumption].
+Qed.
+
+Lemma clip_edges_halfplane u w : forall cl prev l, all_in u w l -> all_in u w (clip_edges Qops prev cl l).
+Proof.
+  induction cl as [|c cl IH]; intros prev l H; cbn [clip_edges]; [assumption|].
+  apply IH. now apply clip_pass_halfplane.
+Qed.
+
+Lemma clip_edges_inside : forall cl prev l e,
+  In e (edges_from Qops prev cl) -> all_in (fst e) (snd e) (clip_edges Qops prev cl l).
+Proof.
+  induction cl as [|c cl IH]; intros prev l e Hin; cbn [edges_from clip_edges] in *; [contradiction|].
+  destruct Hin as [<-|Hin].
+  - cbn [fst snd]. apply clip_edges_halfplane, clip_pass_inside.
+  - now apply IH.
+Qed.
+
+Lemma sh_clip_inside_clip subj clip e :
+  In e (edges Qops clip) -> all_in (fst e) (snd e) (sh_clip Qops subj clip).
+Proof.
+  unfold edges, sh_clip. destruct clip as [|c cl]; [contradiction|]. apply clip_edges_inside.
+Qed.
+
+Lemma sh_clip_halfplane u w subj clip : all_in u w subj -> all_in u w (sh_clip Qops subj clip).
+Proof. unfold sh_clip. destruct clip; [auto | apply clip_edges_halfplane]. Qed.
+
+Lemma clip_vertices_inside_lemma subj clip v :
+  In v (sh_clip Qops subj clip) ->
+  (forall e, In e (edges Qops clip) -> crossq (fst e) (snd e) v <= 0) /\
+  (forall u w, (forall x, In x subj -> crossq u w x <= 0) -> crossq u w v <= 0).
+Proof.
+  intros Hv. split.
+  - intros e He. pose proof (sh_clip_inside_clip subj clip e He) as A.
+    unfold all_in in A. rewrite Forall_forall in A. now apply A.
+  - intros u w Hs. assert (A : all_in u w (sh_clip Qops subj clip)).
+    { apply sh_clip_halfplane. apply Forall_forall. exact Hs. }
+    unfold all_in in A. rewrite Forall_forall in A. now apply A.
+Qed.
+
+(* ------------------------------------------------------------------------------------------ *)
+(* a polygon all of whose vertices satisfy a clip edge passes that edge unchanged *)
+
+Lemma clip_walk_all_inside cs ce : forall l prev,
+  crossq cs ce prev <= 0 -> all_in cs ce l -> clip_walk Qops cs ce prev l = l.
+Proof.
+  induction l as [|x l IH]; intros prev Hp Hl; cbn [clip_walk]; [reflexivity|].
+  inversion Hl as [|y m Hx Hm]; subst.
+  destruct (clip_step_cases cs ce prev x) as [(H1 & H2 & E)|[(H1 & H2 & E)|[(H1 & H2 & E)|(H1 & H2 & E)]]];
+    try lra. rewrite E. cbn [app]. f_equal. now apply IH.
+Qed.
+
+Lemma clip_pass_all_inside cs ce l : all_in cs ce l -> clip_pass Qops cs ce l = l.
+Proof.
+  intros H. unfold clip_pass. destruct l as [|x l]; [reflexivity|].
+  apply clip_walk_all_inside; [apply all_in_last; [assumption | discriminate] | assumption].
+Qed.
+
+Lemma clip_edges_all_inside : forall cl prev l,
+  (forall e, In e (edges_from Qops prev cl) -> all_in (fst e) (snd e) l) -> clip_edges Qops prev cl l = l.
+Proof.
+  induction cl as [|c cl IH]; intros prev l H; cbn [clip_edges]; [reflexivity|].
+  rewrite clip_pass_all_inside.
+  - apply IH. intros e He. apply H. cbn [edges_from]. now right.
+  - apply (H (prev, c)). cbn [edges_from]. now left.
+Qed.
+
+Lemma sh_clip_all_inside subj clip :
+  (forall e, In e (edges Qops clip) -> all_in (fst e) (snd e) subj) -> sh_clip Qops subj clip = subj.
+Proof.
+  unfold sh_clip, edges. destruct clip as [|c cl]; [reflexivity|]. apply clip_edges_all_inside.
+Qed.
+
+(* ------------------------------------------------------------------------------------------ *)
+(* Rectangles *)
+
+Lemma crossq_peq3 u u' w w' p p' : peq u u' -> peq w w' -> peq p p' -> crossq u w p == crossq u' w' p'.
+Proof. intros [A1 A2] [B1 B2] [C1 C2]. unfold crossq. rewrite A1, A2, B1, B2, C1, C2. reflexivity. Qed.
+
+Section Rect.
+Variables x y c s asp h : Q.
+Hypothesis Hasp : 0 < asp.
+Hypothesis Hh : 0 < h.
+Let k := c * c + s * s.
+
+Definition rq0 : qpt := (x + ((- (h * asp / 2)) * c - h / 2 * s), y + ((- (h * asp / 2)) * s + h / 2 * c)).
+Definition rq1 : qpt := (x + (h * asp / 2 * c - h / 2 * s), y + (h * asp / 2 * s + h / 2 * c)).
+Definition rq2 : qpt := (x - ((- (h * asp / 2)) * c - h / 2 * s), y - ((- (h * asp / 2)) * s + h / 2 * c)).
+Definition rq3 : qpt := (x - (h * asp / 2 * c - h / 2 * s), y - (h * asp / 2 * s + h / 2 * c)).
+Definition rectq : list qpt := [rq0; rq1; rq2; rq3].
+
+Lemma rect_K : 0 <= asp * h * h * k.
+Proof.
+  assert (0 <= k) by (unfold k; nra).
+  assert (0 < asp * h) by (apply Qmult_lt_0_compat; assumption).
+  assert (0 < asp * h * h) by (apply Qmult_lt_0_compat; assumption).
+  apply Qmult_le_0_compat; [now apply Qlt_le_weak | assumption].
+Qed.
+
+Ltac rect_fact :=
+  unfold crossq, rq0, rq1, rq2, rq3; cbn [px py fst snd];
+  first [ match goal with |- ?e <= 0 => setoid_replace e with 0 by field; apply Qle_refl end
+        | match goal with |- ?e <= 0 =>
+            setoid_replace e with (- (asp * h * h * k)) by (unfold k; field); pose proof rect_K; lra end ].
+
+Lemma rectq_convex : forall e, In e [(rq3, rq0); (rq0, rq1); (rq1, rq2); (rq2, rq3)] ->
+  all_in (fst e) (snd e) rectq.
+Proof.
+  intros e He. cbn [In] in He.
+  destruct He as [<-|[<-|[<-|[<-|[]]]]]; cbn [fst snd]; unfold rectq, all_in;
+    repeat (apply Forall_cons); try apply Forall_nil; rect_fact.
+Qed.
+
+Lemma rectq_twice : twice_signed_area Qops rectq == - (2 * (asp * h * h * k)).
+Proof.
+  unfold twice_signed_area, rectq. cbn [last det_walk]. unfold det, rq0, rq1, rq2, rq3.
+  cbn [px py fst snd]. qn. unfold k. field.
+Qed.
+
+Lemma rectq_area : shoelace Qops rectq == asp * h * h * k.
+Proof.
+  unfold shoelace. rewrite qdiv, Qabsb_abs, rectq_twice, qtwo, Qabs_opp.
+  rewrite Qabs_pos; [field|]. pose proof rect_K. lra.
+Qed.
+
+End Rect.
+
+Lemma rect_vertices_q (b : qbox) :
+  leq (rect_vertices Qops b) (rectq (bxc b) (byc b) (bc b) (bs b) (basp b) (bh b)).
+Proof.
+  unfold rect_vertices, rectq, rq0, rq1, rq2, rq3, leq.
+  repeat (apply Forall2_cons); try apply Forall2_nil; unfold peq; cbn [px py fst snd]; qn;
+    rewrite ?qtwo; split; reflexivity.
+Qed.
+
+Lemma all_in_leq u u' w w' l l' : peq u u' -> peq w w' -> leq l l' -> all_in u w l -> all_in u' w' l'.
+Proof.
+  intros Hu Hw Hl H. unfold all_in in *. induction Hl as [|p p' l l' Hp Hl IH]; [constructor|].
+  inversion H as [|q m Hq Hm]; subst. constructor; [|now apply IH].
+  rewrite <- (crossq_peq3 _ _ _ _ _ _ Hu Hw Hp). assumption.
+Qed.
+
+Lemma peq_sym p q : peq p q -> peq q p.
+Proof. intros [A B]. split; symmetry; assumption. Qed.
+
+Lemma leq_sym l l' : leq l l' -> leq l' l.
+Proof. intros H. induction H; constructor; auto using peq_sym. Qed.
+
+Definition valid_box (b : qbox) : Prop := 0 < basp b /\ 0 < bh b.
+
+Lemma rect_all_inside (b : qbox) : valid_box b ->
+  forall e, In e (edges Qops (rect_vertices Qops b)) -> all_in (fst e) (snd e) (rect_vertices Qops b).
+Proof.
+  intros [Ha Hh] e He.
+  pose proof (rect_vertices_q b) as L.
+  set (X := bxc b) in *. set (Y := byc b) in *. set (C := bc b) in *. set (S := bs b) in *.
+  set (A := basp b) in *. set (H := bh b) in *.
+  remember (rect_vertices Qops b) as R eqn:ER.
+  unfold rectq in L.
+  inversion L as [|v0 q0 R1 Q1 P0 L1]; subst R. inversion L1 as [|v1 q1 R2 Q2 P1 L2]; subst.
+  inversion L2 as [|v2 q2 R3 Q3 P2 L3]; subst. inversion L3 as [|v3 q3 R4 Q4 P3 L4]; subst.
+  inversion L4; subst.
+  match goal with HH : _ = rect_vertices Qops b |- _ => rewrite <- HH in *; clear HH end.
+  cbn [edges edges_from last In] in He.
+  pose proof (rectq_convex X Y C S A H Ha Hh) as CV.
+  destruct He as [<-|[<-|[<-|[<-|[]]]]]; cbn [fst snd].
+  - apply (all_in_leq (rq3 X Y C S A H) _ (rq0 X Y C S A H) _ (rectq X Y C S A H)); auto using peq_sym, leq_sym.
+    apply (CV (_, _)). cbn [In]. auto.
+  - apply (all_in_leq (rq0 X Y C S A H) _ (rq1 X Y C S A H) _ (rectq X Y C S A H)); auto using peq_sym, leq_sym.
+    apply (CV (_, _)). cbn [In]. auto.
+  - apply (all_in_leq (rq1 X Y C S A H) _ (rq2 X Y C S A H) _ (rectq X Y C S A H)); auto using peq_sym, leq_sym.
+    apply (CV (_, _)). cbn [In]. auto.
+  - apply (all_in_leq (rq2 X Y C S A H) _ (rq3 X Y C S A H) _ (rectq X Y C S A H)); auto using peq_sym, leq_sym.
+    apply (CV (_, _)). cbn [In]. auto.
+Qed.
+
+Lemma clip_self_lemma (b : qbox) : valid_box b ->
+  sh_clip Qops (rect_vertices Qops b) (rect_vertices Qops b) = rect_vertices Qops b.
+Proof. intros V. apply sh_clip_all_inside. now apply rect_all_inside. Qed.
+
+Lemma rect_area_lemma (b : qbox) : valid_box b ->
+  shoelace Qops (rect_vertices Qops b) == basp b * bh b * bh b * (bc b * bc b + bs b * bs b).
+Proof.
+  intros [Ha Hh]. rewrite <- (shoelace_leq _ _ (rect_vertices_q b)). now apply rectq_area.
+Qed.
+
+Lemma box_area_q (b : qbox) : box_area Qops b == bh b * bh b * basp b.
+Proof. unfold box_area. qn. reflexivity. Qed.
+
+Definition unit_dir (b : qbox) : Prop := bc b * bc b + bs b * bs b == 1.
+
+Lemma rect_area_unit (b : qbox) : valid_box b -> unit_dir b ->
+  shoelace Qops (rect_vertices Qops b) == box_area Qops b.
+Proof. intros V U. unfold unit_dir in U. rewrite rect_area_lemma, box_area_q by assumption. rewrite U. ring. Qed.
+
+(* ------------------------------------------------------------------------------------------ *)
+(* too_far: the sqrt-free decision, and its soundness as a pre-filter *)
+
+Definition radius2q (b : qbox) : Q := (basp b * bh b / 2) * (basp b * bh b / 2) + (bh b / 2) * (bh b / 2).
+Definition dist2q (l r : qbox) : Q := (bxc l - bxc r) * (bxc l - bxc r) + (byc l - byc r) * (byc l - byc r).
+
+Lemma radius2_q b : radius2 Qops b == radius2q b.
+Proof. unfold radius2, radius2q. qn. rewrite ?qtwo. reflexivity. Qed.
+
+Lemma dist2_q l r : dist2 Qops l r == dist2q l r.
+Proof. unfold dist2, dist2q. qn. reflexivity. Qed.
+
+(* too_far l r  <->  d^2 - r_l^2 - r_r^2 > 0  /\  (d^2 - r_l^2 - r_r^2)^2 > 4 r_l^2 r_r^2
+   which, for non-negative radii, is  d^2 > (r_l + r_r)^2 = r_l^2 + r_r^2 + 2 r_l r_r  without square roots *)
+Lemma too_far_iff l r :
+  too_far Qops l r = true <->
+  0 < dist2q l r - radius2q l - radius2q r /\
+  4 * radius2q l * radius2q r < (dist2q l r - radius2q l - radius2q r) * (dist2q l r - radius2q l - radius2q r).
+Proof.
+  unfold too_far. rewrite andb_true_iff, !qltb_iff. qn.
+  rewrite !dist2_q, !radius2_q, !qtwo. setoid_replace (2 * 2 * radius2q l * radius2q r) with (4 * radius2q l * radius2q r) by ring.
+  reflexivity.
+Qed.
+
+Lemma too_far_sym_lemma l r : too_far Qops l r = too_far Qops r l.
+Proof.
+  assert (E : dist2q l r == dist2q r l) by (unfold dist2q; ring).
+  destruct (too_far Qops l r) eqn:A, (too_far Qops r l) eqn:B; try reflexivity.
+  - apply too_far_iff in A. rewrite <- B. symmetry. apply too_far_iff. rewrite <- E.
+    destruct A as [A1 A2]. split; [lra|].
+    setoid_replace (4 * radius2q r * radius2q l) with (4 * radius2q l * radius2q r) by ring.
+    setoid_replace (dist2q l r - radius2q r - radius2q l) with (dist2q l r - radius2q l - radius2q r) by ring.
+    exact A2.
+  - apply too_far_iff in B. rewrite <- A. apply too_far_iff. rewrite E.
+    destruct B as [B1 B2]. split; [lra|].
+    setoid_replace (4 * radius2q l * radius2q r) with (4 * radius2q r * radius2q l) by ring.
+    setoid_replace (dist2q r l - radius2q l - radius2q r) with (dist2q r l - radius2q r - radius2q l) by ring.
+    exact B2.
+Qed.
+
+(* a point of a rectangle is within its radius of the centre *)
+Definition in_rect (b : qbox) (p : qpt) : Prop :=
+  forall e, In e (edges Qops (rect_vertices Qops b)) -> crossq (fst e) (snd e) p <= 0.
+
+Section InRect.
+Variables x y c s asp h : Q.
+Hypothesis Hasp : 0 < asp.
+Hypothesis Hh : 0 < h.
+Hypothesis Hu : c * c + s * s == 1.
+Variable p : qpt.
+Hypothesis H30 : crossq (rq3 x y c s asp h) (rq0 x y c s asp h) p <= 0.
+Hypothesis H01 : crossq (rq0 x y c s asp h) (rq1 x y c s asp h) p <= 0.
+Hypothesis H12 : crossq (rq1 x y c s asp h) (rq2 x y c s asp h) p <= 0.
+Hypothesis H23 : crossq (rq2 x y c s asp h) (rq3 x y c s asp h) p <= 0.
+
+Lemma rectq_point_radius :
+  (px p - x) * (px p - x) + (py p - y) * (py p - y) <= (asp * h / 2) * (asp * h / 2) + (h / 2) * (h / 2).
+Proof.
+  set (dx := px p - x). set (dy := py p - y).
+  set (a := dx * c + dy * s). set (b := - dx * s + dy * c).
+  assert (Hw : 0 < h * asp) by (apply Qmult_lt_0_compat; assumption).
+  (* the four half-plane constraints in local coordinates *)
+  assert (E30 : crossq (rq3 x y c s asp h) (rq0 x y c s asp h) p == h * (- a - h * asp / 2 * (c * c + s * s))).
+  { unfold crossq, rq3, rq0, a, dx, dy. cbn [px py fst snd]. field. }
+  assert (E01 : crossq (rq0 x y c s asp h) (rq1 x y c s asp h) p == (h * asp) * (b - h / 2 * (c * c + s * s))).
+  { unfold crossq, rq0, rq1, b, dx, dy. cbn [px py fst snd]. field. }
+  assert (E12 : crossq (rq1 x y c s asp h) (rq2 x y c s asp h) p == h * (a - h * asp / 2 * (c * c + s * s))).
+  { unfold crossq, rq1, rq2, a, dx, dy. cbn [px py fst snd]. field. }
+  assert (E23 : crossq (rq2 x y c s asp h) (rq3 x y c s asp h) p == (h * asp) * (- b - h / 2 * (c * c + s * s))).
+  { unfold crossq, rq2, rq3, b, dx, dy. cbn [px py fst snd]. field. }
+  rewrite E30 in H30. rewrite E01 in H01. rewrite E12 in H12. rewrite E23 in H23.
+  rewrite Hu in *.
+  assert (A1 : - a - h * asp / 2 * 1 <= 0) by nra.
+  assert (A2 : a - h * asp / 2 * 1 <= 0) by nra.
+  assert (B1 : b - h / 2 * 1 <= 0) by nra.
+  assert (B2 : - b - h / 2 * 1 <= 0) by nra.
+  assert (N : dx * dx + dy * dy == a * a + b * b).
+  { unfold a, b. setoid_replace (dx * dx + dy * dy) with ((dx * dx + dy * dy) * (c * c + s * s)) by (rewrite Hu; ring). ring. }
+  rewrite N.
+  setoid_replace (asp * h / 2) with (h * asp / 2) by field.
+  set (hw := h * asp / 2) in *. set (hh := h / 2) in *.
+  assert (A1' : 0 <= hw + a) by lra. assert (A2' : 0 <= hw - a) by lra.
+  assert (B1' : 0 <= hh - b) by lra. assert (B2' : 0 <= hh + b) by lra.
+  pose proof (Qmult_le_0_compat _ _ A2' A1') as PA. pose proof (Qmult_le_0_compat _ _ B1' B2') as PB.
+  assert (EA : (hw - a) * (hw + a) == hw * hw - a * a) by ring.
+  assert (EB : (hh - b) * (hh + b) == hh * hh - b * b) by ring.
+  lra.
+Qed.
+End InRect.
+
+Lemma in_rect_radius (b : qbox) p : valid_box b -> unit_dir b -> in_rect b p ->
+  (px p - bxc b) * (px p - bxc b) + (py p - byc b) * (py p - byc b) <= radius2q b.
+Proof.
+  intros [Ha Hh] U I. unfold radius2q.
+  pose proof (rect_vertices_q b) as L. unfold in_rect in I.
+  remember (rect_vertices Qops b) as R eqn:ER. unfold rectq in L.
+  inversion L as [|v0 q0 R1 Q1 P0 L1]; subst R. inversion L1 as [|v1 q1 R2 Q2 P1 L2]; subst.
+  inversion L2 as [|v2 q2 R3 Q3 P2 L3]; subst. inversion L3 as [|v3 q3 R4 Q4 P3 L4]; subst.
+  inversion L4; subst.
+  match goal with HH : _ = rect_vertices Qops b |- _ => rewrite <- HH in *; clear HH end.
+  cbn [edges edges_from last In] in I.
+  apply (rectq_point_radius (bxc b) (byc b) (bc b) (bs b) (basp b) (bh b) Ha Hh U p).
+  - rewrite <- (crossq_peq3 _ _ _ _ _ _ P3 P0 (peq_refl p)). apply (I (_, _)). auto.
+  - rewrite <- (crossq_peq3 _ _ _ _ _ _ P0 P1 (peq_refl p)). apply (I (_, _)). auto.
+  - rewrite <- (crossq_peq3 _ _ _ _ _ _ P1 P2 (peq_refl p)). apply (I (_, _)). auto.
+  - rewrite <- (crossq_peq3 _ _ _ _ _ _ P2 P3 (peq_refl p)). apply (I (_, _)). auto.
+Qed.
+
+Lemma sq_nonneg (z : Q) : 0 <= z * z.
+Proof. nra. Qed.
+
+(* triangle inequality through the two bounding circles, in squared form *)
+Lemma circles_not_far (ux uy vx vy r1 r2 : Q) :
+  ux * ux + uy * uy <= r1 -> vx * vx + vy * vy <= r2 ->
+  let K := (ux + vx) * (ux + vx) + (uy + vy) * (uy + vy) - r1 - r2 in
+  ~ (0 < K /\ 4 * r1 * r2 < K * K).
+Proof.
+  intros H1 H2 K [K0 K1].
+  set (uu := ux * ux + uy * uy) in *. set (vv := vx * vx + vy * vy) in *.
+  set (d := ux * vx + uy * vy).
+  assert (EK : K == uu + vv + 2 * d - r1 - r2) by (unfold K, uu, vv, d; ring).
+  assert (Kd : K <= 2 * d) by lra.
+  assert (CS : d * d <= uu * vv).
+  { assert (E : uu * vv - d * d == (ux * vy - uy * vx) * (ux * vy - uy * vx)) by (unfold uu, vv, d; ring).
+    pose proof (sq_nonneg (ux * vy - uy * vx)) as S0.
+    set (sq := (ux * vy - uy * vx) * (ux * vy - uy * vx)) in *. set (m := uu * vv) in *. set (n := d * d) in *. lra. }
+  assert (U0 : 0 <= uu) by (unfold uu; pose proof (sq_nonneg ux); pose proof (sq_nonneg uy); lra).
+  assert (V0 : 0 <= vv) by (unfold vv; pose proof (sq_nonneg vx); pose proof (sq_nonneg vy); lra).
+  assert (P : uu * vv <= r1 * r2) by nra.
+  assert (KK : K * K <= (2 * d) * (2 * d)) by nra.
+  nra.
+Qed.
+
+Lemma too_far_sound_lemma (l r : qbox) p :
+  valid_box l -> valid_box r -> unit_dir l -> unit_dir r ->
+  in_rect l p -> in_rect r p -> too_far Qops l r = false.
+Proof.
+  intros Vl Vr Ul Ur Il Ir.
+  destruct (too_far Qops l r) eqn:T; [|reflexivity]. exfalso. apply too_far_iff in T.
+  pose proof (in_rect_radius l p Vl Ul Il) as Rl. pose proof (in_rect_radius r p Vr Ur Ir) as Rr.
+  apply (circles_not_far (bxc l - px p) (byc l - py p) (px p - bxc r) (py p - byc r) (radius2q l) (radius2q r)).
+  - setoid_replace ((bxc l - px p) * (bxc l - px p) + (byc l - py p) * (byc l - py p))
+      with ((px p - bxc l) * (px p - bxc l) + (py p - byc l) * (py p - byc l)) by ring. exact Rl.
+  - exact Rr.
+  - cbn zeta. unfold dist2q in T.
+    setoid_replace (bxc l - px p + (px p - bxc r)) with (bxc l - bxc r) by ring.
+    setoid_replace (byc l - py p + (py p - byc r)) with (byc l - byc r) by ring.
+    exact T.
+Qed.
+
+(* ------------------------------------------------------------------------------------------ *)
+(* IoU: identical boxes, rigid motions *)
+
+Definition oeq (x y : option Q) : Prop :=
+  match x, y with
+  | None, None => True
+  | Some u, Some v => u == v
+  | _, _ => False
+  end.
+
+Lemma eqb_comp a a' b b' : a == a' -> b == b' -> eqb Qops a b = eqb Qops a' b'.
+Proof. intros H1 H2. unfold eqb. rewrite !qleb, H1, H2. reflexivity. Qed.
+
+Lemma iou_of_comp i i' a a' b b' : i == i' -> a == a' -> b == b' ->
+  oeq (iou_of Qops i a b) (iou_of Qops i' a' b').
+Proof.
+  intros Hi Ha Hb. unfold iou_of. rewrite (eqb_comp i i' (zero Qops) (zero Qops) Hi (Qeq_refl _)).
+  destruct (eqb Qops i' (zero Qops)); cbn [oeq]; [exact I|]. qn. rewrite Hi, Ha, Hb. reflexivity.
+Qed.
+
+Lemma radius2q_nonneg b : 0 <= radius2q b.
+Proof. unfold radius2q. pose proof (sq_nonneg (basp b * bh b / 2)). pose proof (sq_nonneg (bh b / 2)). lra. Qed.
+
+Lemma too_far_self b : too_far Qops b b = false.
+Proof.
+  destruct (too_far Qops b b) eqn:T; [|reflexivity]. apply too_far_iff in T. destruct T as [T _].
+  assert (dist2q b b == 0) by (unfold dist2q; ring). pose proof (radius2q_nonneg b). lra.
+Qed.
+
+Lemma box_area_pos b : valid_box b -> 0 < box_area Qops b.
+Proof.
+  intros [Ha Hh]. rewrite box_area_q. apply Qmult_lt_0_compat; [apply Qmult_lt_0_compat|]; assumption.
+Qed.
+
+Lemma inter_area_self b : valid_box b -> unit_dir b -> inter_area Qops b b == box_area Qops b.
+Proof.
+  intros V U. unfold inter_area, clip_area. rewrite too_far_self, clip_self_lemma by assumption.
+  now apply rect_area_unit.
+Qed.
+
+Lemma iou_identical_lemma b : valid_box b -> unit_dir b -> exists v, iou Qops b b = Some v /\ v == 1.
+Proof.
+  intros V U. unfold iou, iou_of. pose proof (inter_area_self b V U) as E. pose proof (box_area_pos b V) as P.
+  set (A := box_area Qops b) in *. set (I := inter_area Qops b b) in *.
+  assert (NZ : eqb Qops I (zero Qops) = false).
+  { destruct (eqb Qops I (zero Qops)) eqn:Z; [|reflexivity]. apply eqb_iff in Z. rewrite qzero in Z. lra. }
+  rewrite NZ. eexists. split; [reflexivity|]. qn. rewrite E. field. lra.
+Qed.
+
+(* box x' is box x moved by the rigid motion p |-> (a x - b y + dx, b x + a y + dy), a^2 + b^2 = 1:
+   the centre is mapped, the direction (cos, sin) is turned by (a, b), the size is kept *)
+Definition moved (a b dx dy : Q) (x x' : qbox) : Prop :=
+  bxc x' == a * bxc x - b * byc x + dx /\ byc x' == b * bxc x + a * byc x + dy /\
+  bc x' == a * bc x - b * bs x /\ bs x' == b * bc x + a * bs x /\
+  basp x' == basp x /\ bh x' == bh x.
+
+Lemma simR_peq a b dx dy p p' q q' : simR a b dx dy p p' -> peq p q -> peq p' q' -> simR a b dx dy q q'.
+Proof. intros [H1 H2] [A1 A2] [B1 B2]. split; [rewrite <- B1, <- A1, <- A2 | rewrite <- B2, <- A1, <- A2]; assumption. Qed.
+
+Lemma simL_leq a b dx dy l l' m m' : simL a b dx dy l l' -> leq l m -> leq l' m' -> simL a b dx dy m m'.
+Proof.
+  intros H. revert m m'. induction H as [|p p' l l' Hp Hl IH]; intros m m' E E'; inversion E; inversion E'; subst; constructor.
+  - eapply simR_peq; eassumption.
+  - now apply IH.
+Qed.
+
+Lemma rect_vertices_moved a b dx dy x x' : moved a b dx dy x x' ->
+  simL a b dx dy (rect_vertices Qops x) (rect_vertices Qops x').
+Proof.
+  intros (M1 & M2 & M3 & M4 & M5 & M6).
+  apply (simL_leq a b dx dy (rectq (bxc x) (byc x) (bc x) (bs x) (basp x) (bh x))
+                   (rectq (bxc x') (byc x') (bc x') (bs x') (basp x') (bh x')));
+    [| apply leq_sym, rect_vertices_q | apply leq_sym, rect_vertices_q].
+  unfold rectq, rq0, rq1, rq2, rq3, simL.
+  repeat (apply Forall2_cons); try apply Forall2_nil; unfold simR; cbn [px py fst snd];
+    rewrite M1, M2, M3, M4, M5, M6; split; field.
+Qed.
+
+Lemma too_far_moved a b dx dy l l' r r' : a * a + b * b == 1 ->
+  moved a b dx dy l l' -> moved a b dx dy r r' -> too_far Qops l' r' = too_far Qops l r.
+Proof.
+  intros U (L1 & L2 & L3 & L4 & L5 & L6) (R1 & R2 & R3 & R4 & R5 & R6).
+  assert (Ed : dist2q l' r' == dist2q l r).
+  { unfold dist2q. rewrite L1, L2, R1, R2.
+    setoid_replace (dist2q l r) with ((a * a + b * b) * dist2q l r) by (rewrite U; ring). unfold dist2q. ring. }
+  assert (El : radius2q l' == radius2q l) by (unfold radius2q; rewrite L5, L6; reflexivity).
+  assert (Er : radius2q r' == radius2q r) by (unfold radius2q; rewrite R5, R6; reflexivity).
+  destruct (too_far Qops l r) eqn:T.
+  - apply too_far_iff. apply too_far_iff in T. rewrite Ed, El, Er. exact T.
+  - destruct (too_far Qops l' r') eqn:T'; [|reflexivity]. apply too_far_iff in T'.
+    rewrite Ed, El, Er in T'. apply too_far_iff in T'. congruence.
+Qed.
+
+Lemma inter_area_moved a b dx dy l l' r r' : a * a + b * b == 1 ->
+  moved a b dx dy l l' -> moved a b dx dy r r' -> inter_area Qops l' r' == inter_area Qops l r.
+Proof.
+  intros U Ml Mr. unfold inter_area. rewrite (too_far_moved a b dx dy l l' r r' U Ml Mr).
+  destruct (too_far Qops l r); [reflexivity|]. unfold clip_area.
+  assert (K : 0 < a * a + b * b) by (rewrite U; reflexivity).
+  rewrite (shoelace_sim a b dx dy K _ _
+             (sh_clip_sim a b dx dy K _ _ _ _ (rect_vertices_moved _ _ _ _ _ _ Ml) (rect_vertices_moved _ _ _ _ _ _ Mr))).
+  rewrite U. apply Qmult_1_l.
+Qed.
+
+Lemma box_area_moved a b dx dy x x' : moved a b dx dy x x' -> box_area Qops x' == box_area Qops x.
+Proof. intros (_ & _ & _ & _ & M5 & M6). rewrite !box_area_q, M5, M6. reflexivity. Qed.
+
+Lemma iou_rigid_motion_lemma a b dx dy l l' r r' : a * a + b * b == 1 ->
+  moved a b dx dy l l' -> moved a b dx dy r r' -> oeq (iou Qops l' r') (iou Qops l r).
+Proof.
+  intros U Ml Mr. unfold iou. apply iou_of_comp.
+  - now apply (inter_area_moved a b dx dy).
+  - now apply (box_area_moved a b dx dy).
+  - now apply (box_area_moved a b dx dy).
+Qed.
+
+(* clipping commutes with a common translation / rotation (vertex lists up to ==) *)
+Lemma clip_translate_lemma dx dy p p' q q' :
+  simL 1 0 dx dy p p' -> simL 1 0 dx dy q q' -> simL 1 0 dx dy (sh_clip Qops p q) (sh_clip Qops p' q').
+Proof. apply sh_clip_sim. reflexivity. Qed.
+
+Lemma clip_rotate_lemma c s p p' q q' : c * c + s * s == 1 ->
+  simL c s 0 0 p p' -> simL c s 0 0 q q' -> simL c s 0 0 (sh_clip Qops p q) (sh_clip Qops p' q').
+Proof. intros U. apply sh_clip_sim. rewrite U. reflexivity. Qed.
+
+(* ------------------------------------------------------------------------------------------ *)
+(* Axis-aligned closed form (BoundingBox::intersection and its IoU) *)
+From Coq Require Import Qminmax.
+
+Lemma Qmaxb_max a b : max Qops a b == Qmax a b.
+Proof.
+  destruct (Qmaxb_spec a b) as [[H E]|[H E]]; rewrite E.
+  - symmetry. now apply Q.max_r.
+  - symmetry. apply Q.max_l. now apply Qlt_le_weak.
+Qed.
+
+Lemma Qminb_min a b : min Qops a b == Qmin a b.
+Proof.
+  destruct (Qminb_spec a b) as [[H E]|[H E]]; rewrite E.
+  - symmetry. now apply Q.min_l.
+  - symmetry. apply Q.min_r. now apply Qlt_le_weak.
+Qed.
+
+Definition aa_w (l r : ltwh Qops) : Q := Qmin (bl l + bw l) (bl r + bw r) - Qmax (bl l) (bl r).
+Definition aa_h (l r : ltwh Qops) : Q := Qmin (bt l + bhh l) (bt r + bhh r) - Qmax (bt l) (bt r).
+
+Lemma aa_inter_cases l r :
+  (0 < aa_w l r /\ 0 < aa_h l r /\ aa_inter Qops l r == aa_w l r * aa_h l r) \/
+  ((aa_w l r <= 0 \/ aa_h l r <= 0) /\ aa_inter Qops l r == 0).
+Proof.
+  unfold aa_inter.
+  set (W := sub Qops (min Qops (add Qops (bl l) (bw l)) (add Qops (bl r) (bw r))) (max Qops (bl l) (bl r))).
+  set (H := sub Qops (min Qops (add Qops (bt l) (bhh l)) (add Qops (bt r) (bhh r))) (max Qops (bt l) (bt r))).
+  assert (EW : W == aa_w l r).
+  { unfold W, aa_w. rewrite qsub, Qminb_min, Qmaxb_max, !qadd. reflexivity. }
+  assert (EH : H == aa_h l r).
+  { unfold H, aa_h. rewrite qsub, Qminb_min, Qmaxb_max, !qadd. reflexivity. }
+  destruct (ltb Qops (zero Qops) W) eqn:A, (ltb Qops (zero Qops) H) eqn:B; cbn [andb].
+  - left. apply qltb_iff in A. apply qltb_iff in B. rewrite qzero, EW in A. rewrite qzero, EH in B.
+    split; [assumption|]. split; [assumption|]. rewrite qmul, EW, EH. reflexivity.
+  - right. split; [|reflexivity]. right. rewrite qltb, negb_false_iff in B. apply Qle_bool_iff in B.
+    rewrite qzero, EH in B. exact B.
+  - right. split; [|reflexivity]. left. rewrite qltb, negb_false_iff in A. apply Qle_bool_iff in A.
+    rewrite qzero, EW in A. exact A.
+  - right. split; [|reflexivity]. left. rewrite qltb, negb_false_iff in A. apply Qle_bool_iff in A.
+    rewrite qzero, EW in A. exact A.
+Qed.
+
+Lemma aa_w_sym l r : aa_w l r == aa_w r l.
+Proof. unfold aa_w. rewrite Q.min_comm, Q.max_comm. reflexivity. Qed.
+Lemma aa_h_sym l r : aa_h l r == aa_h r l.
+Proof. unfold aa_h. rewrite Q.min_comm, Q.max_comm. reflexivity. Qed.
+
+Lemma aa_inter_sym_lemma l r : aa_inter Qops l r == aa_inter Qops r l.
+Proof.
+  destruct (aa_inter_cases l r) as [(A & B & E)|[D E]], (aa_inter_cases r l) as [(A' & B' & E')|[D' E']];
+    rewrite E, E'; rewrite ?(aa_w_sym r l), ?(aa_h_sym r l) in *; try reflexivity.
+  - destruct D'; lra.
+  - destruct D; lra.
+Qed.
+
+Definition valid_ltwh (r : ltwh Qops) : Prop := 0 < bw r /\ 0 < bhh r.
+Definition aa_area (r : ltwh Qops) : Q := bhh r * bw r.
+
+Lemma aa_w_bounds l r : valid_ltwh l -> valid_ltwh r -> aa_w l r <= bw l /\ aa_w l r <= bw r.
+Proof.
+  intros [Wl _] [Wr _]. unfold aa_w.
+  destruct (Q.min_spec (bl l + bw l) (bl r + bw r)) as [[A E]|[A E]]; rewrite E;
+  destruct (Q.max_spec (bl l) (bl r)) as [[B F]|[B F]]; rewrite F; split; lra.
+Qed.
+
+Lemma aa_h_bounds l r : valid_ltwh l -> valid_ltwh r -> aa_h l r <= bhh l /\ aa_h l r <= bhh r.
+Proof.
+  intros [_ Hl] [_ Hr]. unfold aa_h.
+  destruct (Q.min_spec (bt l + bhh l) (bt r + bhh r)) as [[A E]|[A E]]; rewrite E;
+  destruct (Q.max_spec (bt l) (bt r)) as [[B F]|[B F]]; rewrite F; split; lra.
+Qed.
+
+Lemma aa_inter_range_lemma l r : valid_ltwh l -> valid_ltwh r ->
+  0 <= aa_inter Qops l r /\ aa_inter Qops l r <= aa_area l /\ aa_inter Qops l r <= aa_area r.
+Proof.
+  intros Vl Vr. pose proof (aa_w_bounds l r Vl Vr) as [W1 W2]. pose proof (aa_h_bounds l r Vl Vr) as [H1 H2].
+  destruct Vl as [Wl Hl], Vr as [Wr Hr]. unfold aa_area.
+  destruct (aa_inter_cases l r) as [(A & B & E)|[D E]]; rewrite E.
+  - set (w := aa_w l r) in *. set (h := aa_h l r) in *. repeat split; nra.
+  - repeat split; nra.
+Qed.
+
+Lemma aa_iou_q l r : aa_iou Qops l r == aa_inter Qops l r / (aa_area l + aa_area r - aa_inter Qops l r).
+Proof. unfold aa_iou, aa_area. qn. reflexivity. Qed.
+
+Lemma aa_iou_range_lemma l r : valid_ltwh l -> valid_ltwh r -> 0 <= aa_iou Qops l r <= 1.
+Proof.
+  intros Vl Vr. destruct (aa_inter_range_lemma l r Vl Vr) as (I0 & I1 & I2).
+  assert (Al : 0 < aa_area l) by (destruct Vl; unfold aa_area; nra).
+  assert (Ar : 0 < aa_area r) by (destruct Vr; unfold aa_area; nra).
+  rewrite aa_iou_q. set (i := aa_inter Qops l r) in *. set (a := aa_area l) in *. set (b := aa_area r) in *.
+  assert (D : 0 < a + b - i) by lra. split.
+  - apply Qle_shift_div_l; [exact D | lra].
+  - apply Qle_shift_div_r; [exact D | lra].
+Qed.
+
+Lemma aa_iou_identical_lemma r : valid_ltwh r -> aa_iou Qops r r == 1.
+Proof.
+  intros [W H]. rewrite aa_iou_q.
+  assert (E : aa_inter Qops r r == aa_area r).
+  { destruct (aa_inter_cases r r) as [(A & B & E)|[D E]]; rewrite E; unfold aa_w, aa_h, aa_area in *;
+      rewrite ?Q.min_id, ?Q.max_id in *.
+    - ring.
+    - destruct D; lra. }
+  rewrite E. assert (0 < aa_area r) by (unfold aa_area; nra). field. lra.
+Qed.
+
+(* the closed form is zero exactly when the open rectangles have no common point *)
+Definition in_open (r : ltwh Qops) (x y : Q) : Prop :=
+  bl r < x /\ x < bl r + bw r /\ bt r < y /\ y < bt r + bhh r.
+
+Lemma aa_inter_zero_iff_lemma l r : valid_ltwh l -> valid_ltwh r ->
+  (aa_inter Qops l r == 0 <-> ~ exists x y, in_open l x y /\ in_open r x y).
+Proof.
+  intros Vl Vr. split.
+  - intros Z [x [y [(A1 & A2 & A3 & A4) (B1 & B2 & B3 & B4)]]].
+    assert (Wp : 0 < aa_w l r).
+    { unfold aa_w. destruct (Q.min_spec (bl l + bw l) (bl r + bw r)) as [[A E]|[A E]]; rewrite E;
+      destruct (Q.max_spec (bl l) (bl r)) as [[B F]|[B F]]; rewrite F; lra. }
+    assert (Hp : 0 < aa_h l r).
+    { unfold aa_h. destruct (Q.min_spec (bt l + bhh l) (bt r + bhh r)) as [[A E]|[A E]]; rewrite E;
+      destruct (Q.max_spec (bt l) (bt r)) as [[B F]|[B F]]; rewrite F; lra. }
+    destruct (aa_inter_cases l r) as [(A & B & E)|[D E]].
+    + rewrite E in Z. set (w := aa_w l r) in *. set (h := aa_h l r) in *. nra.
+    + destruct D; lra.
+  - intros N. destruct (aa_inter_cases l r) as [(A & B & E)|[D E]]; [|exact E]. exfalso. apply N.
+    exists (Qmax (bl l) (bl r) + aa_w l r / 2), (Qmax (bt l) (bt r) + aa_h l r / 2).
+    unfold in_open. unfold aa_w, aa_h in *.
+    pose proof (Q.le_max_l (bl l) (bl r)). pose proof (Q.le_max_r (bl l) (bl r)).
+    pose proof (Q.le_min_l (bl l + bw l) (bl r + bw r)). pose proof (Q.le_min_r (bl l + bw l) (bl r + bw r)).
+    pose proof (Q.le_max_l (bt l) (bt r)). pose proof (Q.le_max_r (bt l) (bt r)).
+    pose proof (Q.le_min_l (bt l + bhh l) (bt r + bhh r)). pose proof (Q.le_min_r (bt l + bhh l) (bt r + bhh r)).
+    set (x1 := Qmax (bl l) (bl r)) in *. set (x2 := Qmin (bl l + bw l) (bl r + bw r)) in *.
+    set (y1 := Qmax (bt l) (bt r)) in *. set (y2 := Qmin (bt l + bhh l) (bt r + bhh r)) in *.
+    clear E N. destruct Vl as [Wl Hl], Vr as [Wr Hr].
+    assert (X : (x2 - x1) / 2 == (x2 - x1) * (1 # 2)) by field.
+    assert (Y : (y2 - y1) / 2 == (y2 - y1) * (1 # 2)) by field.
+    rewrite X, Y. repeat split; lra.
+Qed.
+
+(* ------------------------------------------------------------------------------------------ *)
+(* Unrotated boxes: the clipped area IS the closed form.
+   Clipping a canonical rectangle [x0,x1] x [y0,y1] (vertex order of bbox.rs) by one edge of an axis-aligned
+   rectangle yields a canonical rectangle again (or nothing); the last pass is only needed up to its area. *)
+
+Lemma clip_step_in_in cs ce s e : crossq cs ce e <= 0 -> crossq cs ce s <= 0 -> clip_step Qops cs ce s e = [e].
+Proof. intros. destruct (clip_step_cases cs ce s e) as [(?&?&E)|[(?&?&E)|[(?&?&E)|(?&?&E)]]]; try lra; exact E. Qed.
+Lemma clip_step_out_in cs ce s e : crossq cs ce e <= 0 -> 0 < crossq cs ce s ->
+  clip_step Qops cs ce s e = [compute_intersection Qops s e cs ce; e].
+Proof. intros. destruct (clip_step_cases cs ce s e) as [(?&?&E)|[(?&?&E)|[(?&?&E)|(?&?&E)]]]; try lra; exact E. Qed.
+Lemma clip_step_in_out cs ce s e : 0 < crossq cs ce e -> crossq cs ce s <= 0 ->
+  clip_step Qops cs ce s e = [compute_intersection Qops s e cs ce].
+Proof. intros. destruct (clip_step_cases cs ce s e) as [(?&?&E)|[(?&?&E)|[(?&?&E)|(?&?&E)]]]; try lra; exact E. Qed.
+Lemma clip_step_out_out cs ce s e : 0 < crossq cs ce e -> 0 < crossq cs ce s -> clip_step Qops cs ce s e = [].
+Proof. intros. destruct (clip_step_cases cs ce s e) as [(?&?&E)|[(?&?&E)|[(?&?&E)|(?&?&E)]]]; try lra; exact E. Qed.
+
+Definition canon (x0 x1 y0 y1 : Q) : list qpt := [(x0, y1); (x1, y1); (x1, y0); (x0, y0)].
+
+Lemma canon_area x0 x1 y0 y1 : x0 <= x1 -> y0 <= y1 -> shoelace Qops (canon x0 x1 y0 y1) == (x1 - x0) * (y1 - y0).
+Proof.
+  intros Hx Hy. unfold shoelace, twice_signed_area, canon. cbn [last det_walk]. unfold det. cbn [px py fst snd].
+  rewrite qdiv, Qabsb_abs, qtwo. qn.
+  match goal with |- Qabs ?e / 2 == _ => setoid_replace e with (- (2 * ((x1 - x0) * (y1 - y0)))) by ring end.
+  rewrite Qabs_opp, Qabs_pos; [field | nra].
+Qed.
+
+Lemma canon_leq x0 x1 y0 y1 x0' x1' y0' y1' :
+  x0 == x0' -> x1 == x1' -> y0 == y0' -> y1 == y1' -> leq (canon x0 x1 y0 y1) (canon x0' x1' y0' y1').
+Proof. intros. unfold canon, leq. repeat constructor; cbn [px py fst snd]; assumption. Qed.
+
+Lemma clip_pass_leq cs ce cs' ce' l l' : peq cs cs' -> peq ce ce' -> leq l l' ->
+  leq (clip_pass Qops cs ce l) (clip_pass Qops cs' ce' l').
+Proof. rewrite !leq_simL, !peq_simR. apply clip_pass_sim. exact one_pos. Qed.
+
+Section AxisAligned.
+(* the clip rectangle *)
+Variables bx0 bx1 by0 by1 : Q.
+Hypothesis HbX : bx0 < bx1.
+Hypothesis HbY : by0 < by1.
+
+Let B0 : qpt := (bx0, by1).
+Let B1 : qpt := (bx1, by1).
+Let B2 : qpt := (bx1, by0).
+Let B3 : qpt := (bx0, by0).
+
+Lemma E_left (q : qpt) : crossq B3 B0 q == - (by1 - by0) * (px q - bx0).
+Proof. unfold crossq, B3, B0. cbn [px py fst snd]. ring. Qed.
+Lemma E_top (q : qpt) : crossq B0 B1 q == (bx1 - bx0) * (py q - by1).
+Proof. unfold crossq, B0, B1. cbn [px py fst snd]. ring. Qed.
+Lemma E_right (q : qpt) : crossq B1 B2 q == (by1 - by0) * (px q - bx1).
+Proof. unfold crossq, B1, B2. cbn [px py fst snd]. ring. Qed.
+Lemma E_bottom (q : qpt) : crossq B2 B3 q == - (bx1 - bx0) * (py q - by0).
+Proof. unfold crossq, B2, B3. cbn [px py fst snd]. ring. Qed.
+
+(* the crossing point, once the sides are known to differ *)
+Lemma ci_point s e cs ce (X Y : Q) :
+  sides_differ s e cs ce ->
+  px s + ci_t s e cs ce * (px e - px s) == X -> py s + ci_t s e cs ce * (py e - py s) == Y ->
+  peq (compute_intersection Qops s e cs ce) (X, Y).
+Proof.
+  intros Hd HX HY. destruct (compute_intersection_parametric _ _ _ _ Hd) as [A B].
+  split; cbn [px py fst snd]; [rewrite A | rewrite B]; cbn [px py fst snd]; assumption.
+Qed.
+
+Ltac sgn E := rewrite E; cbn [px py fst snd]; nra.
+
+(* pass 0: the left edge keeps x >= bx0 *)
+Lemma pass_left x0 x1 y0 y1 : x0 <= x1 -> y0 <= y1 ->
+  (x1 < bx0 /\ clip_pass Qops B3 B0 (canon x0 x1 y0 y1) = []) \/
+  (bx0 <= x1 /\ leq (clip_pass Qops B3 B0 (canon x0 x1 y0 y1)) (canon (Qmax x0 bx0) x1 y0 y1)).
+Proof.
+  intros Hx Hy. unfold clip_pass, canon. cbn [last clip_walk].
+  destruct (Qlt_le_dec x1 bx0) as [C1|C1]; [left | right]; (split; [assumption|]).
+  - rewrite !clip_step_out_out by (sgn E_left). reflexivity.
+  - destruct (Qlt_le_dec x0 bx0) as [C0|C0].
+    + (* crossing *)
+      rewrite (clip_step_out_out B3 B0 (x0, y0) (x0, y1)) by (sgn E_left).
+      rewrite (clip_step_out_in B3 B0 (x0, y1) (x1, y1)) by (sgn E_left).
+      rewrite (clip_step_in_in B3 B0 (x1, y1) (x1, y0)) by (sgn E_left).
+      rewrite (clip_step_in_out B3 B0 (x1, y0) (x0, y0)) by (sgn E_left).
+      cbn [app]. assert (M : Qmax x0 bx0 == bx0) by (apply Q.max_r; lra).
+      repeat (apply Forall2_cons); try apply Forall2_nil; try (split; cbn [px py fst snd]; rewrite ?M; reflexivity).
+      * apply ci_point; [left; split; sgn E_left | |]; unfold ci_t; rewrite !E_left; cbn [px py fst snd];
+          rewrite ?M; field; repeat split; intro Z; nra.
+      * apply ci_point; [right; split; sgn E_left | |]; unfold ci_t; rewrite !E_left; cbn [px py fst snd];
+          rewrite ?M; field; repeat split; intro Z; nra.
+    + rewrite !clip_step_in_in by (sgn E_left). cbn [app].
+      assert (M : Qmax x0 bx0 == x0) by (apply Q.max_l; lra).
+      repeat (apply Forall2_cons); try apply Forall2_nil; split; cbn [px py fst snd]; rewrite ?M; reflexivity.
+Qed.
+
+(* pass 1: the top edge keeps y <= by1 *)
+Lemma pass_top x0 x1 y0 y1 : x0 <= x1 -> y0 <= y1 ->
+  (by1 < y0 /\ clip_pass Qops B0 B1 (canon x0 x1 y0 y1) = []) \/
+  (y0 <= by1 /\ leq (clip_pass Qops B0 B1 (canon x0 x1 y0 y1)) (canon x0 x1 y0 (Qmin y1 by1))).
+Proof.
+  intros Hx Hy. unfold clip_pass, canon. cbn [last clip_walk].
+  destruct (Qlt_le_dec by1 y0) as [C1|C1]; [left | right]; (split; [assumption|]).
+  - rewrite !clip_step_out_out by (sgn E_top). reflexivity.
+  - destruct (Qlt_le_dec by1 y1) as [C0|C0].
+    + rewrite (clip_step_in_out B0 B1 (x0, y0) (x0, y1)) by (sgn E_top).
+      rewrite (clip_step_out_out B0 B1 (x0, y1) (x1, y1)) by (sgn E_top).
+      rewrite (clip_step_out_in B0 B1 (x1, y1) (x1, y0)) by (sgn E_top).
+      rewrite (clip_step_in_in B0 B1 (x1, y0) (x0, y0)) by (sgn E_top).
+      cbn [app]. assert (M : Qmin y1 by1 == by1) by (apply Q.min_r; lra).
+      repeat (apply Forall2_cons); try apply Forall2_nil; try (split; cbn [px py fst snd]; rewrite ?M; reflexivity).
+      * apply ci_point; [right; split; sgn E_top | |]; unfold ci_t; rewrite !E_top; cbn [px py fst snd];
+          rewrite ?M; field; repeat split; intro Z; nra.
+      * apply ci_point; [left; split; sgn E_top | |]; unfold ci_t; rewrite !E_top; cbn [px py fst snd];
+          rewrite ?M; field; repeat split; intro Z; nra.
+    + rewrite !clip_step_in_in by (sgn E_top). cbn [app].
+      assert (M : Qmin y1 by1 == y1) by (apply Q.min_l; lra).
+      repeat (apply Forall2_cons); try apply Forall2_nil; split; cbn [px py fst snd]; rewrite ?M; reflexivity.
+Qed.
+
+(* pass 2: the right edge keeps x <= bx1 *)
+Lemma pass_right x0 x1 y0 y1 : x0 <= x1 -> y0 <= y1 ->
+  (bx1 < x0 /\ clip_pass Qops B1 B2 (canon x0 x1 y0 y1) = []) \/
+  (x0 <= bx1 /\ leq (clip_pass Qops B1 B2 (canon x0 x1 y0 y1)) (canon x0 (Qmin x1 bx1) y0 y1)).
+Proof.
+  intros Hx Hy. unfold clip_pass, canon. cbn [last clip_walk].
+  destruct (Qlt_le_dec bx1 x0) as [C1|C1]; [left | right]; (split; [assumption|]).
+  - rewrite !clip_step_out_out by (sgn E_right). reflexivity.
+  - destruct (Qlt_le_dec bx1 x1) as [C0|C0].
+    + rewrite (clip_step_in_in B1 B2 (x0, y0) (x0, y1)) by (sgn E_right).
+      rewrite (clip_step_in_out B1 B2 (x0, y1) (x1, y1)) by (sgn E_right).
+      rewrite (clip_step_out_out B1 B2 (x1, y1) (x1, y0)) by (sgn E_right).
+      rewrite (clip_step_out_in B1 B2 (x1, y0) (x0, y0)) by (sgn E_right).
+      cbn [app]. assert (M : Qmin x1 bx1 == bx1) by (apply Q.min_r; lra).
+      repeat (apply Forall2_cons); try apply Forall2_nil; try (split; cbn [px py fst snd]; rewrite ?M; reflexivity).
+      * apply ci_point; [right; split; sgn E_right | |]; unfold ci_t; rewrite !E_right; cbn [px py fst snd];
+          rewrite ?M; field; repeat split; intro Z; nra.
+      * apply ci_point; [left; split; sgn E_right | |]; unfold ci_t; rewrite !E_right; cbn [px py fst snd];
+          rewrite ?M; field; repeat split; intro Z; nra.
+    + rewrite !clip_step_in_in by (sgn E_right). cbn [app].
+      assert (M : Qmin x1 bx1 == x1) by (apply Q.min_l; lra).
+      repeat (apply Forall2_cons); try apply Forall2_nil; split; cbn [px py fst snd]; rewrite ?M; reflexivity.
+Qed.
+
+(* pass 3: the bottom edge keeps y >= by0; the vertex list comes out rotated by one place, so only its area is stated *)
+Lemma pass_bottom_area x0 x1 y0 y1 : x0 <= x1 -> y0 <= y1 ->
+  (y1 < by0 /\ clip_pass Qops B2 B3 (canon x0 x1 y0 y1) = []) \/
+  (by0 <= y1 /\ shoelace Qops (clip_pass Qops B2 B3 (canon x0 x1 y0 y1)) == (x1 - x0) * (y1 - Qmax y0 by0)).
+Proof.
+  intros Hx Hy. unfold clip_pass, canon. cbn [last clip_walk].
+  destruct (Qlt_le_dec y1 by0) as [C1|C1]; [left | right]; (split; [assumption|]).
+  - rewrite !clip_step_out_out by (sgn E_bottom). reflexivity.
+  - destruct (Qlt_le_dec y0 by0) as [C0|C0].
+    + rewrite (clip_step_out_in B2 B3 (x0, y0) (x0, y1)) by (sgn E_bottom).
+      rewrite (clip_step_in_in B2 B3 (x0, y1) (x1, y1)) by (sgn E_bottom).
+      rewrite (clip_step_in_out B2 B3 (x1, y1) (x1, y0)) by (sgn E_bottom).
+      rewrite (clip_step_out_out B2 B3 (x1, y0) (x0, y0)) by (sgn E_bottom).
+      cbn [app]. assert (M : Qmax y0 by0 == by0) by (apply Q.max_r; lra).
+      assert (L : leq [compute_intersection Qops (x0, y0) (x0, y1) B2 B3; (x0, y1); (x1, y1);
+                       compute_intersection Qops (x1, y1) (x1, y0) B2 B3]
+                      [(x0, by0); (x0, y1); (x1, y1); (x1, by0)]).
+      { repeat (apply Forall2_cons); try apply Forall2_nil; try apply peq_refl.
+        - apply ci_point; [left; split; sgn E_bottom | |]; unfold ci_t; rewrite !E_bottom; cbn [px py fst snd];
+            field; repeat split; intro Z; nra.
+        - apply ci_point; [right; split; sgn E_bottom | |]; unfold ci_t; rewrite !E_bottom; cbn [px py fst snd];
+            field; repeat split; intro Z; nra. }
+      rewrite <- (shoelace_leq _ _ L). rewrite M.
+      unfold shoelace, twice_signed_area. cbn [last det_walk]. unfold det. cbn [px py fst snd].
+      rewrite qdiv, Qabsb_abs, qtwo. qn.
+      match goal with |- Qabs ?e / 2 == _ => setoid_replace e with (- (2 * ((x1 - x0) * (y1 - by0)))) by ring end.
+      rewrite Qabs_opp, Qabs_pos; [field | nra].
+    + rewrite !clip_step_in_in by (sgn E_bottom). cbn [app].
+      assert (M : Qmax y0 by0 == y0) by (apply Q.max_l; lra).
+      rewrite M. apply (canon_area x0 x1 y0 y1 Hx Hy).
+Qed.
+
+End AxisAligned.
+
+Lemma leq_nil_r l : leq l [] -> l = [].
+Proof. intros H. inversion H. reflexivity. Qed.
+
+Lemma leq_trans l1 l2 l3 : leq l1 l2 -> leq l2 l3 -> leq l1 l3.
+Proof.
+  intros H. revert l3. induction H as [|p q l1 l2 Hp Hl IH]; intros l3 H3; inversion H3; subst; constructor.
+  - destruct Hp as [A B]. match goal with H : peq q _ |- _ => destruct H as [C D] end.
+    split; [rewrite A; exact C | rewrite B; exact D].
+  - now apply IH.
+Qed.
+
+Lemma shoelace_nil : shoelace Qops [] == 0.
+Proof. unfold shoelace, twice_signed_area. rewrite qdiv, Qabsb_abs, qtwo, qzero. reflexivity. Qed.
+
+(* clipping one canonical rectangle by another: the area is the closed form *)
+Lemma clip_canon_area x0 x1 y0 y1 bx0 bx1 by0 by1 :
+  x0 <= x1 -> y0 <= y1 -> bx0 < bx1 -> by0 < by1 ->
+  let W := Qmin x1 bx1 - Qmax x0 bx0 in
+  let H := Qmin y1 by1 - Qmax y0 by0 in
+  let A := shoelace Qops (sh_clip Qops (canon x0 x1 y0 y1) (canon bx0 bx1 by0 by1)) in
+  (0 <= W /\ 0 <= H /\ A == W * H) \/ ((W < 0 \/ H < 0) /\ A == 0).
+Proof.
+  intros Hx Hy HbX HbY W H A.
+  assert (EQ : sh_clip Qops (canon x0 x1 y0 y1) (canon bx0 bx1 by0 by1) =
+               clip_pass Qops (bx1, by0) (bx0, by0) (clip_pass Qops (bx1, by1) (bx1, by0)
+                 (clip_pass Qops (bx0, by1) (bx1, by1) (clip_pass Qops (bx0, by0) (bx0, by1) (canon x0 x1 y0 y1)))))
+    by reflexivity.
+  unfold A. rewrite EQ. clear EQ A.
+  set (S0 := canon x0 x1 y0 y1).
+  set (S1 := clip_pass Qops (bx0, by0) (bx0, by1) S0).
+  set (S2 := clip_pass Qops (bx0, by1) (bx1, by1) S1).
+  set (S3 := clip_pass Qops (bx1, by1) (bx1, by0) S2).
+  set (S4 := clip_pass Qops (bx1, by0) (bx0, by0) S3).
+  pose proof (Q.le_max_l x0 bx0) as M1. pose proof (Q.le_max_r x0 bx0) as M2.
+  pose proof (Q.le_min_l x1 bx1) as M3. pose proof (Q.le_min_r x1 bx1) as M4.
+  pose proof (Q.le_max_l y0 by0) as M5. pose proof (Q.le_max_r y0 by0) as M6.
+  pose proof (Q.le_min_l y1 by1) as M7. pose proof (Q.le_min_r y1 by1) as M8.
+  (* pass 0 *)
+  destruct (pass_left bx0 by0 by1 HbY x0 x1 y0 y1 Hx Hy) as [[C E]|[C E]]; fold S0 in E; fold S1 in E.
+  { right. split; [left; unfold W; lra|]. unfold S4, S3, S2. rewrite E. cbn [clip_pass]. apply shoelace_nil. }
+  set (X0 := Qmax x0 bx0) in *.
+  assert (HX0 : X0 <= x1) by (unfold X0; apply Q.max_lub; assumption).
+  (* pass 1 *)
+  pose proof (clip_pass_leq (bx0, by1) (bx1, by1) _ _ _ _ (peq_refl _) (peq_refl _) E) as E1. fold S2 in E1.
+  destruct (pass_top bx0 bx1 by1 HbX X0 x1 y0 y1 HX0 Hy) as [[C' F]|[C' F]].
+  { rewrite F in E1. apply leq_nil_r in E1. right. split; [right; unfold H; lra|].
+    unfold S4, S3. rewrite E1. cbn [clip_pass]. apply shoelace_nil. }
+  pose proof (leq_trans _ _ _ E1 F) as E2. clear E1 F.
+  set (Y1 := Qmin y1 by1) in *.
+  assert (HY1 : y0 <= Y1) by (unfold Y1; apply Q.min_glb; assumption).
+  (* pass 2 *)
+  pose proof (clip_pass_leq (bx1, by1) (bx1, by0) _ _ _ _ (peq_refl _) (peq_refl _) E2) as E3. fold S3 in E3.
+  destruct (pass_right bx1 by0 by1 HbY X0 x1 y0 Y1 HX0 HY1) as [[C'' F]|[C'' F]].
+  { rewrite F in E3. apply leq_nil_r in E3. right. split; [left; unfold W; fold X0; lra|].
+    unfold S4. rewrite E3. cbn [clip_pass]. apply shoelace_nil. }
+  pose proof (leq_trans _ _ _ E3 F) as E4. clear E3 F.
+  set (X1 := Qmin x1 bx1) in *.
+  assert (HX1 : X0 <= X1) by (unfold X1; apply Q.min_glb; assumption).
+  (* pass 3 *)
+  pose proof (clip_pass_leq (bx1, by0) (bx0, by0) _ _ _ _ (peq_refl _) (peq_refl _) E4) as E5. fold S4 in E5.
+  rewrite <- (shoelace_leq _ _ E5).
+  destruct (pass_bottom_area bx0 bx1 by0 HbX X0 X1 y0 Y1 HX1 HY1) as [[C3 F]|[C3 F]].
+  { right. split; [right; unfold H; fold Y1; lra|]. rewrite F. apply shoelace_nil. }
+  left. fold X0 X1 in W. fold Y1 in H. unfold W, H. split; [lra|]. split; [|exact F].
+  apply Qle_minus_iff. setoid_replace (Y1 - Qmax y0 by0 + - 0) with (Y1 - Qmax y0 by0) by ring.
+  apply -> Qle_minus_iff. apply Q.max_lub; assumption.
+Qed.
+
+Lemma half_pos w : 0 < w -> 0 < w / 2.
+Proof. intros H. apply Qlt_shift_div_l; lra. Qed.
+
+Definition unrotated (b : qbox) : Prop := bc b == 1 /\ bs b == 0.
+
+Definition box_x0 (b : qbox) : Q := bxc b - bh b * basp b / 2.
+Definition box_x1 (b : qbox) : Q := bxc b + bh b * basp b / 2.
+Definition box_y0 (b : qbox) : Q := byc b - bh b / 2.
+Definition box_y1 (b : qbox) : Q := byc b + bh b / 2.
+
+Lemma rect_unrotated b : unrotated b ->
+  leq (rect_vertices Qops b) (canon (box_x0 b) (box_x1 b) (box_y0 b) (box_y1 b)).
+Proof.
+  intros [C S]. eapply leq_trans; [apply rect_vertices_q|].
+  unfold rectq, rq0, rq1, rq2, rq3, canon, box_x0, box_x1, box_y0, box_y1, leq.
+  repeat (apply Forall2_cons); try apply Forall2_nil; split; cbn [px py fst snd]; rewrite C, S; field.
+Qed.
+
+Lemma to_ltwh_q (b : qbox) :
+  bl (to_ltwh Qops b) == box_x0 b /\ bt (to_ltwh Qops b) == box_y0 b /\
+  bl (to_ltwh Qops b) + bw (to_ltwh Qops b) == box_x1 b /\ bt (to_ltwh Qops b) + bhh (to_ltwh Qops b) == box_y1 b.
+Proof.
+  unfold to_ltwh, box_x0, box_x1, box_y0, box_y1. cbn [bl bt bw bhh]. qn. rewrite !qtwo.
+  repeat split; try reflexivity; field.
+Qed.
+
+Lemma clip_axis_aligned_lemma (l r : qbox) :
+  valid_box l -> valid_box r -> unrotated l -> unrotated r ->
+  clip_area Qops (rect_vertices Qops l) (rect_vertices Qops r) == aa_inter Qops (to_ltwh Qops l) (to_ltwh Qops r).
+Proof.
+  intros [Al Hl] [Ar Hr] Ul Ur.
+  assert (Wl : 0 < bh l * basp l) by (apply Qmult_lt_0_compat; assumption).
+  assert (Wr : 0 < bh r * basp r) by (apply Qmult_lt_0_compat; assumption).
+  unfold clip_area.
+  rewrite <- (shoelace_leq _ _ (sh_clip_leq _ _ _ _ (rect_unrotated l Ul) (rect_unrotated r Ur))).
+  pose proof (half_pos _ Wl) as P1. pose proof (half_pos _ Hl) as P2.
+  pose proof (half_pos _ Wr) as P3. pose proof (half_pos _ Hr) as P4.
+  assert (X : box_x0 l <= box_x1 l) by (unfold box_x0, box_x1; clear - P1; set (u := bh l * basp l / 2) in *; lra).
+  assert (Y : box_y0 l <= box_y1 l) by (unfold box_y0, box_y1; clear - P2; lra).
+  assert (BX : box_x0 r < box_x1 r) by (unfold box_x0, box_x1; clear - P3; set (u := bh r * basp r / 2) in *; lra).
+  assert (BY : box_y0 r < box_y1 r) by (unfold box_y0, box_y1; clear - P4; lra).
+  pose proof (clip_canon_area _ _ _ _ _ _ _ _ X Y BX BY) as CA. cbn zeta in CA.
+  destruct (to_ltwh_q l) as (L1 & L2 & L3 & L4). destruct (to_ltwh_q r) as (R1 & R2 & R3 & R4).
+  assert (EW : aa_w (to_ltwh Qops l) (to_ltwh Qops r) == Qmin (box_x1 l) (box_x1 r) - Qmax (box_x0 l) (box_x0 r)).
+  { unfold aa_w. rewrite L3, R3, L1, R1. reflexivity. }
+  assert (EH : aa_h (to_ltwh Qops l) (to_ltwh Qops r) == Qmin (box_y1 l) (box_y1 r) - Qmax (box_y0 l) (box_y0 r)).
+  { unfold aa_h. rewrite L4, R4, L2, R2. reflexivity. }
+  set (W := Qmin (box_x1 l) (box_x1 r) - Qmax (box_x0 l) (box_x0 r)) in *.
+  set (H := Qmin (box_y1 l) (box_y1 r) - Qmax (box_y0 l) (box_y0 r)) in *.
+  destruct CA as [(W0 & H0 & E)|[D E]]; rewrite E;
+    destruct (aa_inter_cases (to_ltwh Qops l) (to_ltwh Qops r)) as [(A & B & F)|[D' F]]; rewrite F, ?EW, ?EH in *.
+  - reflexivity.
+  - destruct D'; nra.
+  - destruct D; lra.
+  - reflexivity.
+Qed.
+
+(* ------------------------------------------------------------------------------------------ *)
+(* What is proved of "the reported area is the true area" (the general rotated link is NOT proved):
+   every vertex of the clipped polygon lies in both rectangles; for unrotated boxes the clipped area is the closed
+   form; for identical boxes it is the area of the box. *)
+Lemma clip_vertices_in_both (l r : qbox) v : valid_box l -> valid_box r ->
+  In v (sh_clip Qops (rect_vertices Qops l) (rect_vertices Qops r)) -> in_rect l v /\ in_rect r v.
+Proof.
+  intros Vl Vr Hv. destruct (clip_vertices_inside_lemma _ _ _ Hv) as [A B]. split.
+  - intros e He. apply B. intros x Hx.
+    pose proof (rect_all_inside l Vl e He) as I. unfold all_in in I. rewrite Forall_forall in I. now apply I.
+  - exact A.
+Qed.
+
+Lemma iou_exact_partial_lemma (l r : qbox) : valid_box l -> valid_box r ->
+  (forall v, In v (sh_clip Qops (rect_vertices Qops l) (rect_vertices Qops r)) -> in_rect l v /\ in_rect r v) /\
+  (unrotated l -> unrotated r ->
+   clip_area Qops (rect_vertices Qops l) (rect_vertices Qops r) == aa_inter Qops (to_ltwh Qops l) (to_ltwh Qops r)) /\
+  (unit_dir l -> inter_area Qops l l == box_area Qops l).
+Proof.
+  intros Vl Vr. split; [|split].
+  - intros v. now apply clip_vertices_in_both.
+  - now apply clip_axis_aligned_lemma.
+  - now apply inter_area_self.
+Qed.
